@@ -636,6 +636,7 @@ func runC09(c *Ctx, _ []string) {
 	c.Stats["samples"] = []any{}
 	nontrivial := 0
 	exhaustive := true
+	c09Budget := 400000
 	for i := 0; i < n; i++ {
 		cfg := randCfg(r, false)
 		cfg.Block = []uint{1024, 1024, 2048, 4096}[r.Intn(4)]
@@ -659,7 +660,11 @@ func runC09(c *Ctx, _ []string) {
 		nontrivial++
 		desc := map[string]any{"cfg": cfg.String(), "data": describe(shape, size, dseed), "stream_len": len(stream)}
 		cuts := []int{}
-		if len(stream) <= 4200 || c.Scale > 1 && len(stream) <= 20000 {
+		if len(stream) <= 4200 && c.Scale == 1 || c.Scale > 1 && len(stream) <= 20000 && c09Budget >= len(stream) {
+			// every cut (thorough: for streams up to 20000 bytes, within a total of 400000 cuts per run, then boundary-focused + random)
+			if c.Scale > 1 {
+				c09Budget -= len(stream)
+			}
 			for k := 0; k < len(stream); k++ {
 				cuts = append(cuts, k)
 			}
@@ -835,6 +840,7 @@ func runC02(c *Ctx, _ []string) {
 	n := 16 * c.Scale
 	c.Stats["samples"] = []any{}
 	nontrivial := 0
+	exhaustLeft := 150000
 	for i := 0; i < n; i++ {
 		cfg := randCfg(r, false)
 		cfg.Checksum = []uint{32, 64}[r.Intn(2)]
@@ -904,8 +910,10 @@ func runC02(c *Ctx, _ []string) {
 			}
 		}
 		flips := 150
-		if c.Scale > 1 && len(pos) < 40000 {
-			flips = len(pos) // exhaustive single-bit flips
+		if c.Scale > 1 && len(pos) < 40000 && exhaustLeft >= len(pos) {
+			flips = len(pos) // exhaustive single-bit flips, within a total of 150000 per run (then sampled as in the quick tier)
+			exhaustLeft -= len(pos)
+			c.Count("streams_flipped_exhaustively", 1)
 		}
 		for k := 0; k < flips; k++ {
 			p := pos[r.Intn(len(pos))]
